@@ -43,6 +43,12 @@ def run(repo, chk):
     chk.ob("R09.2", "overlay.proceed.__exit__:reset-on-every-way-out", ok_all, ex.where,
            "the token is reset on every path through __exit__, whatever ended the activation (return, exception, GeneratorExit on close/drop)"
            + ("" if ok_all else f" -- a path leaves __exit__ without resetting: {' -> '.join(path or [])}"))
+    from ..pairing import raising_before_release
+    from ..callgraph import CallGraph
+    early = raising_before_release(ex, f"ctxvar:{[c for c in ctxvars if 'current' in c][0]}", ctxvars, CallGraph(repo))
+    chk.ob("R09.2", "overlay.proceed.__exit__:nothing-may-raise-before-the-reset", not early, ex.where,
+           "when a generator's activation ends (exhausted, closed or dropped), the caller's context is restored before the close handlers run: a raising handler cannot leave the generator's collection current"
+           + (f" -- may raise first: {early}" if early else ""))
     from .c05 import guard_of, released_under_guard
     oen, oex = repo.func("overlay.BaseOverlay.__enter__"), repo.func("overlay.BaseOverlay.__exit__")
     g1, g2 = guard_of(oen.node, "set", ctxvars), guard_of(oex.node, "reset", ctxvars)
